@@ -41,6 +41,7 @@ type Contract struct {
 	Modifies []Clause
 	Loops    map[int]*LoopSpec
 	Closures map[int]*Contract // contracts of function literals (ordinal within the function)
+	Spawns   map[int][]Clause      // spawn k ensures ...: what the k-th go statement's callee must guarantee from ANY state
 	Points   map[int][]PointClause // in-body assume/assert at verifPoint(k) marker calls
 	Trusted  bool              // assumed, body not verified
 	Inline   bool
@@ -101,7 +102,7 @@ func newContractSet() *ContractSet {
 
 var clauseKeywords = map[string]bool{
 	"requires": true, "ensures": true, "modifies": true, "loop": true, "trusted": true, "let": true,
-	"inline": true, "flag": true, "cover": true, "closure": true, "returns": true, "ghost_ensures": true, "point": true, "progress_ensures": true,
+	"inline": true, "flag": true, "cover": true, "closure": true, "returns": true, "ghost_ensures": true, "point": true, "progress_ensures": true, "spawn": true,
 }
 
 // parseContractFile reads //@ lines. pkgPath is the package owning the file ("" = external spec file).
@@ -250,6 +251,22 @@ func (cs *ContractSet) parseContractFile(path, pkgPath string) {
 				target.GhostEns = append(target.GhostEns, mk(rest))
 			case "progress_ensures":
 				target.ProgEns = append(target.ProgEns, mk(rest))
+			case "spawn":
+				f := strings.Fields(rest)
+				if len(f) < 3 || f[1] != "ensures" {
+					errf(l.no, "bad spawn clause (spawn <k> ensures <expr>)")
+					continue
+				}
+				k, err := strconv.Atoi(f[0])
+				if err != nil {
+					errf(l.no, "spawn ordinal")
+					continue
+				}
+				body := strings.TrimSpace(strings.TrimPrefix(strings.TrimSpace(strings.TrimPrefix(rest, f[0])), f[1]))
+				if target.Spawns == nil {
+					target.Spawns = map[int][]Clause{}
+				}
+				target.Spawns[k] = append(target.Spawns[k], mk(body))
 			case "point":
 				f := strings.Fields(rest)
 				if len(f) < 3 || (f[1] != "assume" && f[1] != "assert") {
